@@ -59,10 +59,22 @@ Init == /\ par \in [Params -> {1}] \cup [Params -> {2}]
 
 Log(e) == hist' = Append(hist, e)
 
+\* what each setter of the classes clears / rebuilds (transcribed from the setters; Dep above is what the *formulas* read):
+\*   Spectrometer: wavelength_to_pixel, min_bins_per_pixel -> _clear_spectral_settings; name -> pipeline kwargs
+\*   CzernyTurner: optics + accommodated_spectra -> _update_wavelength_to_pixel (rebuilds w2p, clears spectral)
+\*   Polychromator: filters -> spectral, classes, kwargs; min_bins_per_window -> spectral; name -> kwargs
+Clears(p) == CASE Kind = "spectrometer" ->
+                   (CASE p \in {"w2p", "mbp"} -> {"spectral"} [] p = "name" -> {"kwargs"})
+              [] Kind = "czerny" ->
+                   (CASE p \in {"order", "grating", "focal", "spacing", "angle", "acc"} -> {"w2p", "spectral"}
+                      [] p = "mbp" -> {"spectral"} [] p = "name" -> {"kwargs"})
+              [] Kind = "polychromator" ->
+                   (CASE p = "filters" -> {"spectral", "classes", "kwargs"} [] p = "mbw" -> {"spectral"} [] p = "name" -> {"kwargs"})
+
 \* instrument.<p> = v
 Set(p, v) ==
     /\ par' = [par EXCEPT ![p] = v]
-    /\ cache' = [c \in Caches |-> IF p \in Dep(c) THEN (IF c \in Eager THEN <<Proj(c, par')>> ELSE <<>>) ELSE cache[c]]
+    /\ cache' = [c \in Caches |-> IF c \in Clears(p) THEN (IF c \in Eager THEN <<Proj(c, par')>> ELSE <<>>) ELSE cache[c]]
     /\ outcome' = "ok"
     /\ Log([op |-> "set", p |-> p, v |-> v])
 
